@@ -322,7 +322,9 @@ def r6(ctx):
     g = cfg(f)
     ins = [c for c in f.calls_to('ic_btc_canister::block_header_store::BlockHeaderStore::insert_block') if not c.cleanup]
     ing = [c for c in f.calls_to(US + '::ingest_block') if not c.cleanup]
-    good = len(ins) == 1 and len(ing) == 1 and g.dominates(ins[0].bb, ing[0].bb) and not [c for c in cond_exprs(prog, f, ins[0].bb) if not (c[0] == 'is' and P.call('ic_btc_canister::unstable_blocks::peek', P.anything)(c[1]))]
+    paused_arm = lambda c: c[0] == 'hidden' and any(isinstance(x, tuple) and x[0] == 'call' and x[1].rsplit('::', 1)[-1] in ('ingest_block_continue', 'ingest_block') for x in walk(c[1]))
+    good = len(ins) == 1 and len(ing) == 1 and g.dominates(ins[0].bb, ing[0].bb) and not [c for c in cond_exprs(prog, f, ins[0].bb)
+                                                                                          if not (c[0] == 'is' and P.call('ic_btc_canister::unstable_blocks::peek', P.anything)(c[1])) and not paused_arm(c)]
     ctx.check(good, 'R6', 'header-stored-before-ingestion-starts', ins[0] if ins else f,
               'the stabilising block\'s header is stored once, before its ingestion starts, on the only path that starts an ingestion — whether or not that ingestion is later paused',
               'the header of a stabilising block is not stored unconditionally before its ingestion starts: a block whose ingestion is paused and finished by a later heartbeat is recorded differently from one ingested in one go')
